@@ -688,6 +688,16 @@ func (c *fnCtx) nodeEvents(n ast.Node) alts {
 		for _, l := range s.Lhs {
 			a = seq(a, c.lhsEvents(l))
 		}
+		if parts := c.partAssign(s); parts != nil {
+			// x.part = T{f: v, …} with part a by-value piece of x: one assignment per field of the piece
+			var evs []Event
+			for _, pa := range parts {
+				e := ev(EvAssign, s)
+				e.Lhs, e.Rhs, e.Tok = []ast.Expr{pa.lhs}, []ast.Expr{pa.rhs}, token.ASSIGN
+				evs = append(evs, e)
+			}
+			return seq(a, alts{evs})
+		}
 		e := ev(EvAssign, s)
 		e.Lhs, e.Rhs, e.Tok = s.Lhs, s.Rhs, s.Tok
 		return seq(a, one(e))
@@ -1473,8 +1483,13 @@ func isNilIdent(info *types.Info, x ast.Expr) bool {
 	if !ok {
 		return false
 	}
-	_, isNil := info.Uses[id].(*types.Nil)
-	return isNil
+	if _, isNil := info.Uses[id].(*types.Nil); isNil {
+		return true
+	}
+	// the zero value the engine writes for a field left out of a part literal (partAssign)
+	_, used := info.Uses[id]
+	_, defd := info.Defs[id]
+	return id.Name == "nil" && !used && !defd
 }
 
 func assigns(info *types.Info, ev Event, key *gkey) bool {
@@ -1671,4 +1686,78 @@ func (e *Engine) singleCallSite(def *Func) bool {
 	}
 	e.single[def] = n
 	return n == 1
+}
+
+type partField struct {
+	lhs *ast.SelectorExpr
+	rhs ast.Expr
+}
+
+// partAssign: the statement assigns a composite literal (keyed or empty) to a by-value part of a struct
+// (h.joined = membership{session: s, participant: p}); returns the equivalent per-field assignments,
+// fields the literal leaves out being assigned their zero value. The synthesized selections are known to
+// canon through Program.synthSel.
+func (c *fnCtx) partAssign(s *ast.AssignStmt) []partField {
+	if s.Tok != token.ASSIGN || len(s.Lhs) != 1 || len(s.Rhs) != 1 {
+		return nil
+	}
+	info := c.fn.Info()
+	se, ok := ast.Unparen(s.Lhs[0]).(*ast.SelectorExpr)
+	if !ok {
+		return nil
+	}
+	sel, ok := info.Selections[se]
+	if !ok || sel.Kind() != types.FieldVal {
+		return nil
+	}
+	pf, ok := sel.Obj().(*types.Var)
+	if !ok || !c.e.P.isPartField(pf) {
+		return nil
+	}
+	lit, ok := ast.Unparen(s.Rhs[0]).(*ast.CompositeLit)
+	if !ok {
+		return nil
+	}
+	st, ok := pf.Type().Underlying().(*types.Struct)
+	if !ok {
+		return nil
+	}
+	vals := map[string]ast.Expr{}
+	for _, el := range lit.Elts {
+		kv, ok := el.(*ast.KeyValueExpr)
+		if !ok {
+			return nil // positional literal: left as it is
+		}
+		id, ok := kv.Key.(*ast.Ident)
+		if !ok {
+			return nil
+		}
+		vals[id.Name] = kv.Value
+	}
+	if c.e.P.synthSel == nil {
+		c.e.P.synthSel = map[*ast.SelectorExpr]*types.Var{}
+	}
+	var out []partField
+	for i := 0; i < st.NumFields(); i++ {
+		f := st.Field(i)
+		ns := &ast.SelectorExpr{X: s.Lhs[0], Sel: &ast.Ident{NamePos: s.Lhs[0].Pos(), Name: f.Name()}}
+		c.e.P.synthSel[ns] = f
+		v, set := vals[f.Name()]
+		if !set {
+			zero := "nil"
+			if b, isB := f.Type().Underlying().(*types.Basic); isB {
+				switch {
+				case b.Info()&types.IsString != 0:
+					zero = `""`
+				case b.Info()&types.IsBoolean != 0:
+					zero = "false"
+				default:
+					zero = "0"
+				}
+			}
+			v = &ast.Ident{NamePos: s.Rhs[0].Pos(), Name: zero}
+		}
+		out = append(out, partField{ns, v})
+	}
+	return out
 }
